@@ -348,7 +348,9 @@ func evalServe(r *mc.Run, idx int, c serveCase) {
 	} else {
 		outcome = "no-session"
 	}
-	if after := listener.VerifUser(liveID, false); after != before {
+	// (the enumerated queries may have closed the original bystander; then this case's own session
+	// can sit in its slot, and is of course changed by its own traffic)
+	if after := listener.VerifUser(liveID, false); after != before && id != liveID {
 		r.Fail("server-session-disturbed|serve-after-options", fmt.Sprintf("%s: the OTHER established session #%d changed from %s to %s", desc, liveID, before, after), int(c.FragSize%1000), c)
 	}
 	// end the session through the protocol
